@@ -29,6 +29,10 @@ theorem decode_total_src (t : Table) (pre b post : Bytes) (fuel : Nat)
       outs.map (Sum.elim toPacket SrcTec.tAbs) = (decode t.abs (some b)).2 := by
   by_cases h0 : byteAt b 0 = 0
   · obtain ⟨hsrc, hmap⟩ := SrcTec.decode_tecmp_src (tblSt t) pre b post fuel toPacket hpre h8 h0 (by omega) hf
+      (fun _ => by
+        have := C03.beAt_lt b 32 2
+        have hbl : b.length ≤ (pre ++ b ++ post).length := by simp only [List.length_append]; omega
+        omega)
     obtain ⟨_, k2, k3⟩ := C17b.decodeLL_refines t (some b) hT
     rw [decodeLL_tecmp t b h8 h0] at k2 k3
     exact ⟨t, _, hsrc, hT, k2, by rw [hmap]; exact k3⟩
